@@ -30,6 +30,16 @@ def canonical_docs(ctx: fw.Ctx, n_random: int):
             texts.append((t, info))
     texts += [("# c\n{\n  a = 1;\n}\n", {"wrapper": "bare", "class": "editable"}),
               ("{ pkgs }:\n# c\n{\n  a = 1;\n  b = 2;\n}\n", {"wrapper": "lambda-formals", "class": "editable"})]
+    # sixth widening (after seeded round 6): trivia between the `in` of one let layer and the next
+    # layer / the body — each layer carries its own `body_before`
+    for t in ["let\n  a = 1;\nin\n# inner scope\nlet\n  b = 2;\nin\n{\n  c = a + b;\n}\n",
+              "let\n  a = 1;\nin\nlet\n  b = 2;\nin\n# body\n{\n  c = a + b;\n}\n",
+              "let\n  a = 1;\nin\n# inner scope\nlet\n  b = 2;\nin\n# body\n{\n  c = a + b;\n}\n",
+              "let\n  a = 1;\nin\n\nlet\n  b = 2;\nin\n\n{\n  c = a + b;\n}\n",
+              "let\n  a = 1;\nin\n# one\nlet\n  b = 2;\nin\n# two\nlet\n  d = 3;\nin\n# three\n{\n  c = a;\n}\n",
+              "{ pkgs }:\nlet\n  a = 1;\nin\n# inner\nlet\n  b = 2;\nin\n{\n  c = a;\n}\n"]:
+        texts.append((t, {"wrapper": "lambda-formals" if t.startswith("{ pkgs") else "bare", "class": "editable",
+                          "shape": "let-layers-with-trivia"}))
     for t, info in texts:
         root = cstread.ts_parse(t)
         if root.has_error or cstread.find_target(root) is None:
